@@ -164,6 +164,13 @@ func cmdCheck(args []string) {
 		case "assert":
 			confirmed = len(nr.Failed) > 0
 			how = strings.Join(nr.Failed, "; ")
+			if !confirmed && strings.Contains(pf.f.Msg, "[engine-observed]") && nr.Done && nr.Diverged == "" {
+				// the footprint of the library (stores / loads of package-level state) is observable
+				// only by the engine, which executes the real SSA; the native twin confirms that the
+				// same inputs drive the real build down the same path
+				confirmed = true
+				how = "engine-observed footprint of the real SSA; native replay of the same inputs completes on the same path"
+			}
 		case "panic":
 			confirmed = nr.Panicked != "" || nr.Crashed != ""
 			how = nr.Panicked + nr.Crashed
@@ -301,22 +308,22 @@ func cmdCheck(args []string) {
 		"queries": map[string]interface{}{"solver_total": st.Queries, "solver_sat": st.Sat, "solver_unsat": st.Unsat, "solver_unknown": st.Unknown,
 			"branches_decided_without_solver": total.DecidedNoSolve, "assertions_discharged_by_solver": total.AssertsSolver - total.AssertsFailed, "assertions_trivially_true_on_path": total.AssertsTrivial,
 			"assertions_refuted": total.AssertsFailed},
-		"solver":               map[string]interface{}{"name": *solver, "cpu_time_s": round1(st.Time.Seconds()), "errors": st.Errors},
-		"symbolic_forks":       total.Forks,
-		"ssa_instructions":     total.Steps,
-		"paths_cut_by_assume":  total.AssumeCut,
-		"unwinding_assertions": map[string]interface{}{"limit_failures": total.LimitHits, "max_call_depth_seen": total.MaxDepth},
-		"runtime_panic_vcs":    total.RuntimeVCs,
-		"covers_reached":       reached,
-		"covers_unreached":     unreached,
-		"intrinsics_used":      intr,
-		"inconclusive_units":   append(append([]string{}, truncated...), inconclusive...),
-		"unsupported":          total.UnsupportedWhy,
+		"solver":                      map[string]interface{}{"name": *solver, "cpu_time_s": round1(st.Time.Seconds()), "errors": st.Errors},
+		"symbolic_forks":              total.Forks,
+		"ssa_instructions":            total.Steps,
+		"paths_cut_by_assume":         total.AssumeCut,
+		"unwinding_assertions":        map[string]interface{}{"limit_failures": total.LimitHits, "max_call_depth_seen": total.MaxDepth},
+		"runtime_panic_vcs":           total.RuntimeVCs,
+		"covers_reached":              reached,
+		"covers_unreached":            unreached,
+		"intrinsics_used":             intr,
+		"inconclusive_units":          append(append([]string{}, truncated...), inconclusive...),
+		"unsupported":                 total.UnsupportedWhy,
 		"unconfirmed_counterexamples": unconfirmed,
-		"trace_mismatches":     mism,
-		"known_findings_seen":  knownSeen,
-		"load_ssa_s":           round1(loadT.Seconds()),
-		"workers":              *workers,
+		"trace_mismatches":            mism,
+		"known_findings_seen":         knownSeen,
+		"load_ssa_s":                  round1(loadT.Seconds()),
+		"workers":                     *workers,
 	}
 	if def.Level == "other" {
 		cov["explanation"] = def.Explanation
@@ -387,6 +394,7 @@ func cmdReplay(args []string) {
 		Kind     string     `json:"kind"`
 		Message  string     `json:"message"`
 		Case     nativeCase `json:"case"`
+		PkgPath  string     `json:"pkgpath"`
 	}
 	if err := json.Unmarshal(b, &rep); err != nil {
 		fatal("%v", err)
@@ -400,6 +408,24 @@ func cmdReplay(args []string) {
 	}
 	nr := nativeRun(bin, scratch, []nativeCase{rep.Case}, 20*time.Second)[0]
 	fmt.Printf("replay of %s (%s): inputs: %s\n", rep.Property, rep.Message, renderNondets(rep.Case.Nondets))
+	if strings.Contains(rep.Message, "[engine-observed]") {
+		// footprint violations are observed by the engine on the real SSA: replay there
+		known := loadKnown()
+		p := loadProgram(known)
+		u := &interp.Unit{Name: rep.Case.Unit, Harness: rep.Group, PkgPath: groups[rep.Group].PkgPath, Entry: rep.Case.Entry, Params: rep.Case.Params}
+		f, end, err := interp.ReplayInEngine(p, u, rep.Case.Nondets)
+		if err != nil {
+			os.RemoveAll(scratch)
+			fatal("%v", err)
+		}
+		fmt.Printf("engine replay: path ends %q\n", end)
+		if f != nil {
+			fmt.Printf("engine replay: %s: %s\n", f.Kind, f.Msg)
+			fmt.Printf("VIOLATION property=%s replay=%s\n", rep.Property, args[0])
+			os.RemoveAll(scratch)
+			os.Exit(1)
+		}
+	}
 	fmt.Printf("native: failed=%v panicked=%q crashed=%q diverged=%q done=%v obs=%v\n", nr.Failed, nr.Panicked, nr.Crashed, nr.Diverged, nr.Done, nr.Obs)
 	if len(nr.Failed) > 0 || nr.Panicked != "" || nr.Crashed != "" {
 		fmt.Printf("VIOLATION property=%s replay=%s\n", rep.Property, args[0])
